@@ -36,7 +36,7 @@ func c05failure(p *c05.Package, o c05.Outcome) (kind, detail string) {
 	}
 	base := 0
 	for _, r := range o.Records {
-		if r.Via == "" {
+		if r.Via == "" && r.Note == "" {
 			base++
 		}
 	}
@@ -44,18 +44,38 @@ func c05failure(p *c05.Package, o c05.Outcome) (kind, detail string) {
 		return "driver", fmt.Sprintf("%d records for %d actions", base, p.NumActions())
 	}
 	for _, r := range o.Records {
-		via := ""
-		if r.Via != "" {
-			via = " [reached via " + r.Via + "]"
+		if k, d := c05recordFailure(r); k != "" {
+			return k, d
 		}
-		if r.Err != "" {
-			return r.Kind + "-fails", fmt.Sprintf("%s %s.%s%s: %s", r.Kind, r.Iface, r.Name, via, r.Err)
+	}
+	return "", ""
+}
+
+// c05recordFailure: what one record of the driver says against the property ("" = nothing).
+func c05recordFailure(r c05rt.Record) (kind, detail string) {
+	via := ""
+	if r.Via != "" {
+		via = " [reached via " + r.Via + "]"
+	}
+	if r.Note != "" && r.Kind != "seq" {
+		via += " [" + r.Note + "]"
+	}
+	trace := func(step int) string {
+		if r.Kind != "seq" {
+			return ""
 		}
-		for _, l := range r.Legs {
-			if !l.ValueOK {
-				return l.What + "-not-equal", fmt.Sprintf("%s %s.%s%s (%s): passed %s, the other side got %s (payload %s)",
-					r.Kind, r.Iface, r.Name, via, strings.Join(l.Sigs, " "), l.Canon, l.Got, l.Bytes)
-			}
+		if step+1 < len(r.Trace) {
+			return fmt.Sprintf(" -- steps on the one stub/proxy pair: %s", strings.Join(r.Trace[:step+1], "; "))
+		}
+		return fmt.Sprintf(" -- steps on the one stub/proxy pair: %s", strings.Join(r.Trace, "; "))
+	}
+	if r.Err != "" {
+		return r.Kind + "-fails", fmt.Sprintf("%s %s.%s%s: %s%s", r.Kind, r.Iface, r.Name, via, r.Err, trace(len(r.Trace)))
+	}
+	for _, l := range r.Legs {
+		if !l.ValueOK {
+			return l.What + "-not-equal", fmt.Sprintf("%s %s.%s%s (%s): passed %s, the other side got %s (payload %s)%s",
+				r.Kind, r.Iface, r.Name, via, strings.Join(l.Sigs, " "), l.Canon, l.Got, l.Bytes, trace(l.Step))
 		}
 	}
 	return "", ""
@@ -72,7 +92,9 @@ func c05known(sw map[string]bool, ts []c05.Trigger) string {
 
 func runC05(res *hx.Result, rng *hx.Rng, tier string, outdir string) {
 	res.Rule = "idlgen: well-formed IDL packages (1-3 interfaces, 1-10 actions, structs shared between actions, Vec/Map/Tuple nesting, all scalars, any); " +
-		"objects of other interfaces as method result / parameter / signal payload; plain stream and hostile-identifier stream (one hostile identifier per package); every proxy also through WithContext, returned objects exercised as secondary objects; non-trivial = a struct used by two actions or a nested container; " +
+		"objects of other interfaces as method result / parameter / signal payload; plain stream and hostile-identifier stream (one hostile identifier per package); every proxy also through WithContext, returned objects exercised as secondary objects; " +
+		"every stub/proxy pair with a signal or property also through a drawn sequence of Update/Set/Signal/Get/call steps (sequence stream: several properties and signals, 28 steps); " +
+		"sizes stream: every action carries a list or map, driven with one container of each value at 0, 1, 4095, 4096 entries; non-trivial = a struct used by two actions or a nested container; " +
 		"distinct by sha256 of the IDL text"
 	env, err := c05.NewEnv()
 	if err != nil {
@@ -80,11 +102,11 @@ func runC05(res *hx.Result, rng *hx.Rng, tier string, outdir string) {
 		os.Exit(1)
 	}
 	// the hostile stream walks through every identifier class in turn
-	nPlain, nHostile := 20, len(c05.HostileClasses)
+	nPlain, nHostile, nSeq, nSizes := 20, len(c05.HostileClasses), 5, 3
 	if tier == "thorough" {
-		nPlain, nHostile = 210, 6*len(c05.HostileClasses)
+		nPlain, nHostile, nSeq, nSizes = 210, 6*len(c05.HostileClasses), 40, 12
 	}
-	sw := c05probes(res, env)
+	sw, over := c05probes(res, env)
 	var jobs []*c05job
 	for i := 0; i < nPlain; i++ {
 		jobs = append(jobs, &c05job{id: fmt.Sprintf("p%03d", i), pkg: c05.GenPlain(rng, fmt.Sprintf("pk%03d", i)), seed: rng.U64()})
@@ -92,6 +114,16 @@ func runC05(res *hx.Result, rng *hx.Rng, tier string, outdir string) {
 	for i := 0; i < nHostile; i++ {
 		class := c05.HostileClasses[i%len(c05.HostileClasses)]
 		jobs = append(jobs, &c05job{id: fmt.Sprintf("h%03d", i), pkg: c05.GenHostile(rng, fmt.Sprintf("hk%03d", i), class), seed: rng.U64()})
+	}
+	// every stub / proxy pair of the two streams above gets a short sequence as well
+	for _, j := range jobs {
+		j.pkg.Steps = 10
+	}
+	for i := 0; i < nSeq; i++ {
+		jobs = append(jobs, &c05job{id: fmt.Sprintf("q%03d", i), pkg: c05.GenSequence(rng, fmt.Sprintf("qk%03d", i)), seed: rng.U64()})
+	}
+	for i := 0; i < nSizes; i++ {
+		jobs = append(jobs, &c05job{id: fmt.Sprintf("z%03d", i), pkg: c05.GenSizes(rng, fmt.Sprintf("zk%03d", i)), seed: rng.U64()})
 	}
 	sem := make(chan struct{}, 8)
 	var wg sync.WaitGroup
@@ -112,6 +144,7 @@ func runC05(res *hx.Result, rng *hx.Rng, tier string, outdir string) {
 	}
 	wg.Wait()
 	cs := c05cases(res, outdir, sw)
+	c05overCases(res, cs, over)
 	repaired := 0
 	for _, j := range jobs {
 		before := len(res.Failures)
@@ -167,7 +200,10 @@ func c05evaluate(res *hx.Result, cs *hx.Cases, sw map[string]bool, j *c05job) {
 		if r.Via != "" {
 			res.Dist("reached-via:" + r.Via)
 		}
-		c05addCases(res, cs, j, r)
+		if r.Note != "" {
+			res.Dist("pass:" + r.Note)
+		}
+		c05addCases(res, cs, j.id, r, false)
 	}
 }
 
